@@ -75,8 +75,8 @@ contract(CO + 'construct_scalar', props=['C01', 'C13'],
 
 
 # ---- C14: generic collection construction (BaseConstructor)
-define('wf_items', ['n'], "(exact(n, 'yaml.nodes.MappingNode') ==> (typeis(n.value, 'list') and forall(i, 0, len(n.value), typeis(n.value[i], 'tuple') and len(as_(n.value[i], 'tuple')) == 2 and is_node(as_(n.value[i], 'tuple')[0]) and is_node(as_(n.value[i], 'tuple')[1])))) and "
-       "(exact(n, 'yaml.nodes.SequenceNode') ==> (typeis(n.value, 'list') and forall(i, 0, len(n.value), is_node(n.value[i]))))")
+define('wf_items', ['n'], "(exact(n, 'yaml.nodes.MappingNode') ==> (typeis(n.value, 'list') and forall(i, 0, len(as_(n.value, 'list')), typeis(as_(n.value, 'list')[i], 'tuple') and len(as_(as_(n.value, 'list')[i], 'tuple')) == 2 and is_node(as_(as_(n.value, 'list')[i], 'tuple')[0]) and is_node(as_(as_(n.value, 'list')[i], 'tuple')[1])))) and "
+       "(exact(n, 'yaml.nodes.SequenceNode') ==> (typeis(n.value, 'list') and forall(i, 0, len(as_(n.value, 'list')), is_node(as_(n.value, 'list')[i]))))")
 _CM_REQ = ["is_node(node)", "inv_gens(self)", "inv_ctor(self)", "wf_items(node)"]
 _CM_INV = ["inv_gens(self)", "inv_ctor(self)", "co_grow(self)", "ro_same(self)", "self.deep_construct == old(self.deep_construct)"]
 contract(CO + 'construct_mapping', props=['C14'],
@@ -133,3 +133,49 @@ contract(SCN + 'construct_yaml_float', props=['C01', 'C08'], requires=["typeis(n
                      1: ["typeis(value, 'float') and typeis(base, 'int') and typeis(sign, 'int')", "typeis(digits, 'list')",
                          "forall(j, 0, len(digits), typeis(digits[j], 'float'))"]},
          raises=[CERR])
+
+
+# ---- C13 / C14: the two-phase (generator) constructors of the safe loader.  Recursive structures need the container to exist, and to be
+# cached by construct_object, BEFORE any child is constructed: so each of these hands out a NEW EMPTY container having touched nothing
+# (at_yield + the empty frame at the yield), yields exactly once, and fills that same container in the second phase, during which it
+# keeps the constructor protocol that construct_object / construct_document assume of generator resumption (PHASE2 = PROTO_ENS with
+# old = the state at resumption).  While suspended, the rest of the construction may do what the protocol allows (RESUME).
+SCN_MAPPING_WHY = ('merge flattening is not under contract (flatten_mapping: bounded stand-in of C14); ASSUMED: flattens, then behaves as '
+                   'BaseConstructor.construct_mapping (verified), i.e. keeps the constructor protocol and returns a new dict')
+contract(SCN + 'construct_mapping', trusted=True, why=SCN_MAPPING_WHY, params={'deep': 'bool'},
+         requires=["is_node(node)", "inv_gens(self)", "inv_ctor(self)"], result='dict',
+         ensures=["fresh(result)", "co_grow(self)", "ro_same(self)", "self.deep_construct == old(self.deep_construct)", "inv_gens(self)"],
+         modifies=PROTO_MOD, raises=[CERR], raises_any=True)
+
+# separation by element type, stated as a precondition: the item list of a node is not the constructor's list of suspended generators
+GEN_REQ = ["is_node(node)", "inv_gens(self)", "inv_ctor(self)", "wf_items(node)", "node.value is not self.state_generators"]
+PHASE2 = ["co_grow(self)", "ro_same(self)", "self.deep_construct == old(self.deep_construct)", "inv_gens(self)"]
+PHASE2_L = {0: 'cache-only-grows', 1: 'in-progress-set-restored', 2: 'deep-flag-restored', 3: 'inv_gens'}
+RESUME = dict(resume_modifies=PROTO_MOD, resume_ensures=["inv_gens(self)", "inv_ctor(self)"])
+
+contract(SCN + 'construct_yaml_seq', props=['C13', 'C14'], requires=GEN_REQ,
+         at_yield=["fresh(result) and typeis(result, 'list') and len(result) == 0"], yield_labels={0: 'a-new-empty-list-before-any-child'},
+         ensures=PHASE2 + ["exact(node, 'yaml.nodes.SequenceNode') and len(yielded) == len(node.value)"],
+         labels={**PHASE2_L, 4: 'the-yielded-list-gets-one-item-per-entry'},
+         modifies=PROTO_MOD, raises=[CERR], raises_any=True, **RESUME)
+
+contract(SCN + 'construct_yaml_map', props=['C13', 'C14'], requires=GEN_REQ,
+         at_yield=["fresh(result) and typeis(result, 'dict') and len(result) == 0"], yield_labels={0: 'a-new-empty-dict-before-any-child'},
+         ensures=PHASE2, labels=PHASE2_L, modifies=PROTO_MOD, raises=[CERR], raises_any=True, **RESUME)
+
+contract(SCN + 'construct_yaml_set', props=['C13', 'C14'], requires=GEN_REQ,
+         at_yield=["fresh(result) and typeis(result, 'set') and len(result) == 0"], yield_labels={0: 'a-new-empty-set-before-any-child'},
+         ensures=PHASE2, labels=PHASE2_L, modifies=PROTO_MOD, raises=[CERR], raises_any=True, **RESUME)
+
+define('wf_single_items', ['s', 'n'], "exact(n, 'yaml.nodes.SequenceNode') ==> forall(i, 0, len(n.value), wf_items(n.value[i]) and n.value[i].value is not s.state_generators)")
+for _n, _v in [('construct_yaml_omap', 'omap'), ('construct_yaml_pairs', 'pairs')]:
+    contract(SCN + _n, props=['C13', 'C14'], requires=GEN_REQ + ["wf_single_items(self, node)"],
+             at_yield=["fresh(result) and typeis(result, 'list') and len(result) == 0"], yield_labels={0: 'a-new-empty-list-before-any-child'},
+             ensures=PHASE2 + ["exact(node, 'yaml.nodes.SequenceNode') and len(yielded) == len(node.value)",
+                               "forall(i, 0, len(yielded), typeis(yielded[i], 'tuple') and len(as_(yielded[i], 'tuple')) == 2)"],
+             labels={**PHASE2_L, 4: 'one-pair-per-entry', 5: 'every-item-is-a-key-value-pair'},
+             invariants={0: ["inv_gens(self)", "inv_ctor(self)", "co_grow(self)", "ro_same(self)", "self.deep_construct == old(self.deep_construct)",
+                             "%s is yielded" % _v, "len(%s) == loop_i" % _v,
+                             "exact(node, 'yaml.nodes.SequenceNode') and loop_seq == seq(node.value)",
+                             "forall(i, 0, len(%s), typeis(%s[i], 'tuple') and len(as_(%s[i], 'tuple')) == 2)" % (_v, _v, _v)]},
+             modifies=PROTO_MOD, raises=[CERR], raises_any=True, **RESUME)
